@@ -265,6 +265,18 @@ func enumRoots(yield func(Case) bool) {
 
 // ---- (B) cases
 
+// boundaryNums are the numbers the "[]any" kind of family (B) hands through slot props: the extremes of
+// the integer widths, floats that are whole and lie beyond the int64 range (what a large JSON id
+// decodes to), negative zero, fractional and whole floats of ordinary size, zeros of several types.
+var boundaryNums = []vals.V{
+	vals.Num("float64", "1e21"), vals.Num("float64", "18446744073709551615"), vals.Num("float64", "-0"), vals.Num("float64", "2.5"),
+	vals.Num("float64", "3"), vals.Num("float64", "9223372036854775808"), vals.Num("float64", "-9223372036854775808"), vals.Num("float64", "-1e300"),
+	vals.Num("float64", "0"), vals.Num("float64", "1e-7"), vals.Num("float64", "9007199254740993"), vals.Num("float32", "1.5"),
+	vals.Num("float32", "3e38"), vals.Num("float32", "7"), vals.Num("uint64", "18446744073709551615"), vals.Num("int64", "-9223372036854775808"),
+	vals.Num("int64", "9223372036854775807"), vals.Num("int8", "-128"), vals.Num("uint8", "255"), vals.Num("int", "0"), vals.Num("uint", "0"),
+	vals.Num("int32", "-2147483648"), vals.Num("uint32", "4294967295"), vals.Num("int16", "-1"),
+}
+
 type structSpec struct {
 	kind        string // []srec | []*srec | []sstr | []*sstr
 	form, scope string
@@ -276,8 +288,12 @@ type structSpec struct {
 func structCase(s structSpec, k int) Case {
 	c := Case{Compact: k%2 == 1, Comps: map[string]Comp{}, Entry: entries[k%len(entries)]}
 	isStr := s.kind == "[]sstr" || s.kind == "[]*sstr"
+	isNum := s.kind == "[]any"
 	var items []vals.V
-	for i := 0; i < s.n; i++ {
+	for i := 0; i < s.n && isNum; i++ {
+		items = append(items, boundaryNums[(k+i*5)%len(boundaryNums)])
+	}
+	for i := 0; i < s.n && !isNum; i++ {
 		m := map[string]vals.V{"Name": vals.Str(fmt.Sprintf("nm%d", i))}
 		if !isStr {
 			m["Label"], m["Plain"], m["N"], m["Deep"] = vals.Str(fmt.Sprintf("lb%d", i)), vals.Str(fmt.Sprintf("pl%d", i)), vals.Int(i+k%5), vals.Str(fmt.Sprintf("dp%d", i))
@@ -291,9 +307,17 @@ func structCase(s structSpec, k int) Case {
 	if k%2 == 0 {
 		one.K = one.K[1:]
 	}
+	if isNum {
+		one = boundaryNums[(k/3+7)%len(boundaryNums)]
+	}
 	c.Data = map[string]vals.V{"rows": {K: s.kind, L: items}, "one": one, "pa": vals.Str("Aa")}
 	// the same paths, on a value x: by Go name, by json tag, promoted, and printed whole
 	fields := func(p, x string) []Node {
+		if isNum {
+			// a number handed on as a slot prop: the content prints the prop itself, and the text is
+			// asserted exactly (fmt.Sprint of the Go value, see printable)
+			return []Node{{K: "el", Tag: "i", M: p + "w", Kids: []Node{txt(Part{L: "["}, Part{X: x}, Part{L: "]"})}}}
+		}
 		parts := []Part{{X: x + ".Name"}, {L: "|"}, {X: x + ".name"}}
 		binds := []KV{{K: "a", V: x + ".Name"}, {K: "b", V: x + ".name"}}
 		if !isStr {
@@ -345,7 +369,7 @@ func structCase(s structSpec, k int) Case {
 
 func enumStructs(yield func(Case) bool) {
 	k := 0
-	for _, kind := range []string{"[]srec", "[]*srec", "[]sstr", "[]*sstr"} {
+	for _, kind := range []string{"[]srec", "[]*srec", "[]sstr", "[]*sstr", "[]any", "[]any"} {
 		for _, f := range wsForms {
 			if f.form == "plain" || f.form == "bare" && f.scope == "" && k%2 == 0 {
 				// unscoped content cannot name the prop; one unscoped form per kind renders the fallback
@@ -367,7 +391,7 @@ func genShape(t *rapid.T) Case {
 	if rapid.Bool().Draw(t, "root-or-struct") {
 		c = rootCase(rootSpec{root: rapid.SampledFrom(rootKinds).Draw(t, "root"), entry: rapid.SampledFrom(entries).Draw(t, "entry"), form: f.form, scope: f.scope, name: f.name}, k)
 	} else {
-		c = structCase(structSpec{kind: rapid.SampledFrom([]string{"[]srec", "[]*srec", "[]sstr", "[]*sstr"}).Draw(t, "kind"), form: f.form, scope: f.scope, name: f.name,
+		c = structCase(structSpec{kind: rapid.SampledFrom([]string{"[]srec", "[]*srec", "[]sstr", "[]*sstr", "[]any"}).Draw(t, "kind"), form: f.form, scope: f.scope, name: f.name,
 			place: rapid.SampledFrom([]string{"loop", "slotfor", "single"}).Draw(t, "place"), n: rapid.IntRange(0, 3).Draw(t, "n")}, k)
 	}
 	c.rename(genNames(t))
